@@ -31,7 +31,7 @@ ASSUMPTIONS = ['island rows are compared with an independent 8-connected flood f
 MIN_REACH = {'source_finder:SourceFinder.find_sources_in_image': 1, 'source_finder:SourceFinder.priorized_fit_islands': 1,
              'source_finder:SourceFinder._refit_islands': 1, 'source_finder:SourceFinder.result_to_components': 1}
 MIN_COUNTERS = {'island_positions_checked': 10, 'priorized_inputs_off_image_or_on_blank': 3, 'rows_checked': 200, 'island_rows_checked': 10, 'reruns_compared': 10, 'priorized_runs': 3,
-                'fresh_process_reruns': 1, 'table_rows_checked': 20, 'priorized_runs_from_a_table_without_uuid_column': 2, 'blind_runs_with_psf_map': 4, 'multi_component_islands_with_differing_psf': 3}
+                'fresh_process_reruns': 1, 'table_rows_checked': 20, 'priorized_runs_from_a_table_without_uuid_column': 2, 'blind_runs_with_psf_map': 4, 'island_checks_with_flood_above_seed': 1, 'multi_component_islands_with_differing_psf': 3}
 BATCHES_PER_JOB = 4
 
 ISLAND_FIELDS = ['island', 'components', 'background', 'local_rms', 'ra_str', 'dec_str', 'ra', 'dec', 'peak_flux', 'int_flux',
@@ -61,6 +61,11 @@ def cases(seed, tier):
         out.append({'kind': 'blind', 'field': spec, 'max_summits': [None, None, 1, 2, 3][int(rng.integers(0, 5))],
                     'island': bool(i % 2), 'docov': bool(rng.random() < 0.7), 'fresh': i % 5 == 1, 'table': i % 3 == 0,
                     'cores': 1})
+        # seed/flood clips other than the defaults, including flood > seed (documented: the flood clip is then lowered to the
+        # seed clip) - the island rows must describe the pixels detected with the clips actually in force
+        if i % 4 == 2:
+            out[-1]['clips'] = [[5.0, 7.0], [6.0, 3.0], [4.5, 4.5], [8.0, 10.0], [5.0, 4.0]][(i // 4) % 5]
+            out[-1]['island'] = True
     # blind runs with an external psf map that changes from map pixel to map pixel (a few image pixels): the components of one
     # blended island then have different local psfs; the int_flux / psf column relation is judged row by row
     n_psf = 8 if tier == 'quick' else 80
@@ -99,6 +104,8 @@ def _blind(fn, case, rms):
     kw = {}
     if case.get('psfmap'):
         kw['imgpsf'] = psf_map_file(case, fn)
+    if case.get('clips'):
+        kw['innerclip'], kw['outerclip'] = case['clips']
     srcs = sf.find_sources_in_image(fn, rms=rms, bkg=0.0, cores=1, docov=case['docov'], max_summits=case.get('max_summits'),
                                     doislandflux=case.get('island', False), nonegative=False, nopositive=False, **kw)
     return srcs
@@ -398,7 +405,7 @@ def run(case):
             o.see('flags', int(r['flags']))
         # ---- island rows
         if isles:
-            _check_islands(o, ctx, comps, isles, img, rms, z)
+            _check_islands(o, ctx, comps, isles, img, rms, z, clips=case.get('clips'))
         # ---- reproducibility, same process
         if srcs2 is not None:
             c2, i2 = _rows(srcs2)
@@ -467,13 +474,19 @@ def _mech_island_pos(r, z, pix):
     return None
 
 
-def _check_islands(o, ctx, comps, isles, img, rms, z=None):
+def _check_islands(o, ctx, comps, isles, img, rms, z=None, clips=None):
     """island rows vs component rows vs an independent flood fill of the image"""
     ncomp = {}
     for r in comps:
         ncomp[r['island']] = ncomp.get(r['island'], 0) + 1
     snr = floodfill.snr_image(img, 0.0, rms)
-    oracle, _ = floodfill.islands_from_snr(snr, 5.0, 4.0)
+    seed, flood = clips or (5.0, 4.0)
+    flood = min(flood, seed)
+    if clips:
+        o.count('island_checks_with_non_default_clips')
+        if clips[1] > clips[0]:
+            o.count('island_checks_with_flood_above_seed')
+    oracle, _ = floodfill.islands_from_snr(snr, seed, flood)
     by_pixel = {}
     for isl in oracle:
         for p in isl:
@@ -517,7 +530,7 @@ def _check_islands(o, ctx, comps, isles, img, rms, z=None):
         (r0, r1), (c0, c1) = floodfill.tight_box(cand)
         vals = np.array([img[p] for p in cand], dtype=float)
         peak = vals[np.argmax(np.abs(vals))] if (vals.max() <= 0 or vals.min() >= 0) else None
-        strict = int(np.sum(np.abs(vals) - 4.0 * rms > 0))
+        strict = int(np.sum(np.abs(vals) - flood * rms > 0))
         if [xmin, xmax, ymin, ymax] != [r0, r1, c0, c1]:
             o.violate('island_extent', dict(w, oracle_extent=[r0, r1, c0, c1]))
         if r['pixels'] != strict:
